@@ -23,3 +23,8 @@ NOT_COVERED = ['Value.from_satoshi(...).str(...) -> parse round trip', 'Transact
 TRUSTED = ['IEEE-754 model pyvc/floats.py', 'CPython float(str) correctly rounded', 'amount text abstraction (contracts/external.py SAmountText)']
 FUZZ_QUICK = 300
 FUZZ_THOROUGH = 200000
+
+
+def extra_checks(tier, seed, opens):
+    from bounded import c17_amounts
+    return [c17_amounts.run(tier, seed, opens)]
